@@ -487,7 +487,7 @@ func c11Worker(ctx *core.Ctx) *core.Result {
 func init() {
 	registerSharded("C09", c09Worker, func(tier string) core.Meta {
 		return core.Meta{ID: "C09", Level: "fault_enumeration",
-			Rule: "deviation-bounded exploration of the device side of the dialogue: for each of 5 device types x 4 front ends (drc approve, do-approve approve, drc -C, do-approve compare) the baseline dialogue is recorded; then every answer point gets every deviation of its alphabet (SSH: device error text, garbled/unexpected output, stall, connection close, write memory without [OK], Linux silent non-zero exit status; HTTPS: 500, 403, malformed body, close, stall, API status=error, commit message, job FAIL, job PEND), one deviation per run (thorough: all pairs with the second deviation behind the first, do-approve approve); the real front end runs in-process against the simulator (fake expect in virtual time / TLS test server); oracle per run: after the first failed answer only clean-up/read-only traffic, no save/commit, exit != 0, do-approve status FAILED resp. DIFF and history END: FAILED; conversely success claims only in runs where every command was accepted and the save/commit was confirmed; non-trivial = runs with a deviation",
+			Rule: "deviation-bounded exploration of the device side of the dialogue: for each of 5 device types x 4 front ends (drc approve, do-approve approve, drc -C, do-approve compare) the baseline dialogue is recorded; then every answer point gets every deviation of its alphabet (SSH: device error text, garbled/unexpected output, stall, connection close, write memory without [OK], IOS aborted save, IOS NVRAM overwrite question followed by a save or by an aborted save, command authorization failed, Linux silent non-zero exit status; HTTPS: 500, 403, malformed body, close, stall, API status=error, commit message, job FAIL, job PEND twice, job PEND 70 times then FAIL), one deviation per run (thorough: all pairs with the second deviation behind the first, do-approve approve); the real front end runs in-process against the simulator (fake expect in virtual time / TLS test server); oracle per run: after the first failed answer only clean-up/read-only traffic, no save/commit, exit != 0, do-approve status FAILED resp. DIFF and history END: FAILED; conversely success claims only in runs where every command was accepted and the save/commit was confirmed; non-trivial = runs with a deviation",
 			Assumptions: []string{"one chunk per device answer; goexpect's own timer/goroutine races are outside (replaced by a synchronous stand-in); HTTPS stalls are real 1.5 s sleeps against a 1 s client time-out"},
 			Bounds:      map[string]any{"quick": "all single deviations", "thorough": "+ all ordered pairs for do-approve approve"},
 		}
